@@ -3,7 +3,7 @@
    Modelled code (fclones/src/group.rs, file.rs, path.rs):
      FileSubGroup::group            -> subgroups
      FileGroup::{subgroup_count, matches_strictly, missing_count, redundant_count (with its
-       `roots.is_empty()` fast path), reported_count, file_count, total_size}
+       `roots.is_empty() && !group_by_id` fast path), reported_count, file_count, total_size}
      FileGroup::sort_by_path        -> sort_by_path   (derived `Ord` of Path: parent first, then component)
      FileHash::u128_prefix          -> hash_prefix    (first 16 bytes, little endian)
      group_files tail               -> finalize       (par_sort_by_key Reverse((len, u128_prefix)), stable;
@@ -118,15 +118,15 @@ Definition missing_count (g : group) (flt : gfilter) : N :=
 Definition sum_lengths (l : list (list file)) : N :=
   fold_right (fun sg a => N.of_nat (length sg) + a) 0 l.
 
-(* the code as it is: fast path when no roots are configured *)
+(* the code as it is: fast path when no roots are configured and every path counts as a replica (--match-links) *)
 Definition redundant_count (g : group) (flt : gfilter) : N :=
   match repl flt with
   | Under _ => 0
   | Over rf =>
       let rf := N.max rf 1 in
-      match roots flt with
-      | [] => file_count g - rf
-      | _ => sum_lengths (skipn (N.to_nat rf) (subgroups (gfiles g) (roots flt) (by_id flt)))
+      match roots flt, by_id flt with
+      | [], false => file_count g - rf
+      | _, _ => sum_lengths (skipn (N.to_nat rf) (subgroups (gfiles g) (roots flt) (by_id flt)))
       end
   end.
 
